@@ -2,6 +2,7 @@ package main
 
 import (
 	"fmt"
+	"go/token"
 	"strings"
 
 	"golang.org/x/tools/go/ssa"
@@ -477,4 +478,100 @@ func splitArgs(s string) []string {
 		cur += string(ch)
 	}
 	return append(out, cur)
+}
+
+// timerUseGuarded: every method call on a job's start timer (Stop/Reset) whose receiver is read from the
+// job's startTimer field lies behind the `startTimer != nil` edge of a test of the SAME job's field in the
+// same function. The field is nil for every job without a delay and after the expiry handler ran, so an
+// unguarded (or inverted) use panics inside the runner's lock region — e.g. when a job without a delay is
+// replaced on the wait list — and a guard with the wrong orientation never stops a pending timer.
+func (ro *Roles) timerUseGuarded(r *Report, rule string) {
+	w := ro.w
+	n := 0
+	for _, f := range w.ModFuncs {
+		if f.Package() != ro.Root || f.Synthetic != "" {
+			continue
+		}
+		ro.la.curFn = f
+		// nil tests of a start timer in f: base access path → blocks entered only over the non-nil edge
+		type guard struct {
+			base string
+			blk  *ssa.BasicBlock
+		}
+		var guards []guard
+		timerLoad := func(v ssa.Value) (string, bool) {
+			ld, ok := w.Resolve(v).(*ssa.UnOp)
+			if !ok || ld.Op != token.MUL {
+				return "", false
+			}
+			if k, _, ok := ro.la.rootField(ld.X); !ok || k != "PipelineJob.startTimer" {
+				return "", false
+			}
+			return strings.TrimSuffix(w.apAddr(ld.X), ".startTimer"), true
+		}
+		for _, b := range f.Blocks {
+			if len(b.Instrs) == 0 {
+				continue
+			}
+			ifi, ok := b.Instrs[len(b.Instrs)-1].(*ssa.If)
+			if !ok {
+				continue
+			}
+			cond, neg := ifi.Cond, false
+			for {
+				u, isU := cond.(*ssa.UnOp)
+				if !isU || u.Op != token.NOT {
+					break
+				}
+				cond, neg = u.X, !neg
+			}
+			bo, ok := cond.(*ssa.BinOp)
+			if !ok || (bo.Op != token.EQL && bo.Op != token.NEQ) {
+				continue
+			}
+			x, y := bo.X, bo.Y
+			if isNilConst(x) {
+				x, y = y, x
+			}
+			if !isNilConst(y) {
+				continue
+			}
+			base, ok := timerLoad(x)
+			if !ok {
+				continue
+			}
+			nonNilSucc := 0 // cond true ⇒ non-nil for !=
+			if (bo.Op == token.EQL) != neg {
+				nonNilSucc = 1
+			}
+			if s := b.Succs[nonNilSucc]; len(s.Preds) == 1 {
+				guards = append(guards, guard{base, s})
+			}
+		}
+		allInstrs(f, func(in ssa.Instruction) {
+			c := callCommonOf(in)
+			if c == nil || c.IsInvoke() || len(c.Args) == 0 {
+				return
+			}
+			g := c.StaticCallee()
+			if g == nil || g.Signature.Recv() == nil || !strings.HasSuffix(g.Signature.Recv().Type().String(), "time.Timer") {
+				return
+			}
+			base, ok := timerLoad(c.Args[0])
+			if !ok {
+				return
+			}
+			n++
+			guarded := false
+			for _, gd := range guards {
+				if gd.base == base && gd.blk.Dominates(in.Block()) {
+					guarded = true
+				}
+			}
+			r.Check(guarded, rule+".guarded", FuncName(f)+": "+g.Name()+" on "+base+".startTimer", w.InstrPos(in),
+				"reached only over the startTimer != nil edge of a test of the same job",
+				"(*time.Timer)."+g.Name()+" is called on "+base+".startTimer without being behind the `"+base+".startTimer != nil` edge: the field is nil for every job without a start delay (and after the delay expired), so this panics while the runner's lock is held (e.g. when a queued job without delay is replaced), or a pending timer is never stopped")
+		})
+	}
+	r.Count("timer uses", n)
 }
